@@ -229,7 +229,7 @@ fn canaries08(m: &mut Mon, sink: &mut Sink) {
     m.canary(|m| check_tr_derivative(m, &ends, &good([0, 1, 2], ends), &log[..2]));
 }
 
-pub const FLOORS08: &[&str] = &["derivative:Poly0", "derivative:Poly8", "piecewise_derivative:Poly8", "piecewise_derivative:Poly0", "segment_derivative_checked", "probe_functions", "exact_factor", "rounded_factor", "identical_neighbouring_pieces"];
+pub const FLOORS08: &[&str] = &["derivative:Poly0", "derivative:Poly8", "piecewise_derivative:Poly8", "piecewise_derivative:Poly0", "segment_derivative_checked", "probe_functions", "exact_factor", "rounded_factor", "identical_neighbouring_pieces", "probe_functions_with_infinite_ends"];
 
 pub fn drive08(a: &Args, m: &mut Mon, sink: &mut Sink) {
     m.floors(FLOORS08);
@@ -248,7 +248,10 @@ pub fn drive08(a: &Args, m: &mut Mon, sink: &mut Sink) {
         ppv::for_polys!(per);
         // probe pieces
         let nn = match r.below(8) { 0 => 1, _ => r.usize(2, 40) };
-        let (ends, _c) = gen_ends_any(&mut r, nn);
+        let (mut ends, _c) = gen_ends_any(&mut r, nn);
+        if r.below(6) == 0 && infinite_tails(&mut r, &mut ends) {
+            m.count("probe_functions_with_infinite_ends");
+        }
         let pw = tr_pw(&ends);
         tr_log_take();
         m.count("probe_functions");
